@@ -776,13 +776,502 @@ Proof.
   pose proof (cpk_length t HN) as Lk.
   assert (Hdom' : tol <= @kn R NumR k (length k - 4) - @kn R NumR k (4 - 1)).
   { rewrite Lk. replace (N + 6 - 4)%nat with (N + 2)%nat by lia. change (4 - 1)%nat with 3%nat.
-    rewrite (cpk_end t HN), (cpk_start t HN). exact Hdom. }
+    rewrite (cpk_end t HN HK Hfirst Hlast), (cpk_start t HN HK Hfirst Hlast). exact Hdom. }
   pose proof (basis_row_start k 4 3 tol HK ltac:(lia) ltac:(rewrite Lk; lia) Htol Hdom' ltac:(rewrite Lk; lia) b r eq_refl eq_refl eq_refl ltac:(lia)) as RS.
-  pose proof (basis_row_end k 4 3 tol HK ltac:(lia) ltac:(rewrite Lk; lia) Htol Hdom' b r false eq_refl eq_refl eq_refl ltac:(lia) ltac:(discriminate)) as RE.
-  change (4 - 1)%nat with 3%nat in RS. rewrite (cpk_start t HN) in RS.
-  rewrite Lk in RE. replace (N + 6 - 4)%nat with (N + 2)%nat in RE by lia. rewrite (cpk_end t HN) in RE.
+  pose proof (basis_row_end k 4 3 tol HK ltac:(lia) ltac:(rewrite Lk; lia) Htol Hdom' ltac:(rewrite Lk; lia) b r false eq_refl eq_refl eq_refl ltac:(lia) ltac:(discriminate)) as RE.
+  change (4 - 1)%nat with 3%nat in RS. rewrite (cpk_start t HN HK Hfirst Hlast) in RS.
+  rewrite Lk in RE. replace (N + 6 - 4)%nat with (N + 2)%nat in RE by lia. rewrite (cpk_end t HN HK Hfirst Hlast) in RE.
   eexists. unfold obj_deriv. rewrite Eb, Er. cbn [validate hd tl]. unfold validate1. cbv zeta. cbn [b_per1 cubic_periodic_basis Nat.eqb andb].
   unfold eval_h, rows_at. rewrite Eb. cbn [length seq map nth b_knots].
-  rewrite RS, RE. rewrite (cubic_periodic_seam_rows t HN HK Hfirst Hlast r Hr). split; reflexivity.
+  change (b_knots b) with k. rewrite RS, RE. rewrite (cubic_periodic_seam_rows t HN HK Hfirst Hlast r Hr). split; reflexivity.
 Qed.
 End CubicPeriodicObj.
+
+(* ================= 7. manipulate ================= *)
+Lemma eval_all_spec tol (o : obj R) : forall ts xs, @eval_all R NumR tol o ts = Ok xs ->
+  length xs = length ts /\ forall i, (i < length ts)%nat -> @obj_eval R NumR tol o [nth i ts 0] = Ok (nth i xs []).
+Proof.
+  induction ts as [|t ts IH]; intros xs H; cbn [eval_all] in H.
+  - injection H as <-. split; [reflexivity|]. intros i Hi. cbn in Hi. lia.
+  - destruct (@obj_eval R NumR tol o [t]) as [p|e] eqn:E; [|discriminate].
+    destruct (@eval_all R NumR tol o ts) as [ps|e]; [|discriminate]. injection H as <-.
+    destruct (IH ps eq_refl) as [L Hn]. split; [cbn [length]; lia|].
+    intros i Hi. destruct i as [|i]; cbn [nth]; [exact E|]. apply Hn. cbn in Hi. lia.
+Qed.
+
+(* manipulate(crv, f) interpolates the expression f(x, t) of the curve point x = crv(t) at the Greville points *)
+Theorem manipulate_interpolates tol (crv : obj R) (f : list R -> R -> list R) d o i p v :
+  @manipulate_xt R NumR tol crv f = Ok o ->
+  let b := hd (@dflt_bas R) (o_bases crv) in
+  (0 < @b_nfun R b)%nat -> sorted (kn (b_knots b)) -> 0 < tol -> (forall q s, length (f q s) = d) ->
+  (i < @b_nfun R b)%nat ->
+  let g := nth i (@greville_all R NumR b) 0 in
+  @obj_eval R NumR tol crv [g] = Ok p -> @obj_eval R NumR tol o [g] = Ok v ->
+  forall c, (c < d)%nat -> coord c v = nth c (f p g) 0.
+Proof.
+  intros H b Hn HK Htol Hf Hi g Hp Hv c Hc. unfold manipulate_xt in H. cbv zeta in H. fold b in H.
+  destruct (@eval_all R NumR tol crv (@greville_all R NumR b)) as [xs|e] eqn:E; [|discriminate].
+  destruct (eval_all_spec tol crv _ xs E) as [L Hx]. rewrite greville_all_length in L, Hx.
+  set (dest := map (fun xt : list R * R => f (fst xt) (snd xt)) (combine xs (@greville_all R NumR b))) in *.
+  assert (Ld : length dest = @b_nfun R b) by (unfold dest; rewrite map_length, combine_length, L, greville_all_length; lia).
+  assert (Hhd : length (hd [] dest) = d).
+  { destruct dest as [|d0 dr] eqn:ED; [cbn in Ld; lia|]. cbn [hd].
+    assert (I : In d0 dest) by (rewrite ED; left; reflexivity). unfold dest in I. apply in_map_iff in I. destruct I as (xt & <- & _). apply Hf. }
+  assert (Md : mat (@b_nfun R b) (length (hd [] dest)) dest).
+  { split; [exact Ld|]. rewrite Hhd. apply Forall_forall. intros r Hr. unfold dest in Hr. apply in_map_iff in Hr. destruct Hr as (xt & <- & _). apply Hf. }
+  rewrite (interp_eval tol b (@greville_all R NumR b) dest o H (greville_all_length b) Hn Md i v HK Htol Hi Hv c) by (rewrite Hhd; exact Hc).
+  f_equal. unfold dest.
+  rewrite (nth_map_gen _ (combine xs (@greville_all R NumR b)) i [] ([], 0)) by (rewrite combine_length, L, greville_all_length; lia).
+  rewrite combine_nth by (rewrite L, greville_all_length; reflexivity). cbn [fst snd].
+  specialize (Hx i Hi). fold g in Hx. rewrite Hp in Hx. injection Hx as <-. reflexivity.
+Qed.
+
+(* ================= 8. derivative() at the ends of a non-periodic curve is the defining sum of the derivative
+   recurrence dB (from the right at the start, from the left at the end) ================= *)
+Section CurveEndsSpec.
+Variables (tol : R) (o : obj R) (b : basis R).
+Local Notation k := (b_knots b).
+Local Notation p := (b_order b).
+Local Notation K := (@kn R NumR k).
+Local Notation n := (@b_nfun R b).
+Hypothesis Eb : o_bases o = [b].
+Hypothesis Er : o_rat o = false.
+Hypothesis Eper : b_per1 b = 0%nat.
+Hypothesis HK : sorted K.
+Hypothesis Hp : (1 <= p)%nat.
+Hypothesis Hlen : (2 * p <= length k)%nat.
+Hypothesis Htol : 0 < tol.
+Hypothesis Hdom : tol <= K (length k - p)%nat - K (p - 1)%nat.
+Hypothesis Hcp : mat n (o_dim o) (o_cps o).
+
+Lemma ref_row_nonperiodic side d t c : (c < length k - p)%nat ->
+  nth c (@ref_row R NumR side k p 0 d t) 0 = dB side K d (p - 1) c t.
+Proof.
+  intros Hc. rewrite ref_row_entry by lia. rewrite Nat.sub_0_r.
+  rewrite (sumf_ext _ (fun i => if (c =? i)%nat then dB side K d (p - 1) c t else 0)).
+  - apply sumf_indicator. lia.
+  - intros i Hi. rewrite Nat.mod_small by lia. rewrite Nat.eqb_sym. destruct (Nat.eqb_spec c i) as [->|]; reflexivity.
+Qed.
+
+Lemma curve_end_core side d t c : (c < o_dim o)%nat ->
+  coord c (@teval R NumR (o_dim o) [@ref_row R NumR side k p 0 d t] (o_cps o))
+  = sumf (fun i => dB side K d (p - 1) i t * coord c (nth i (o_cps o) [])) 0 n.
+Proof.
+  intros Hc. destruct Hcp as [Lcp Fcp].
+  assert (En : n = (length k - p)%nat) by (unfold b_nfun; rewrite Eper; lia).
+  assert (Lr : length (@ref_row R NumR side k p 0 d t) = n) by (rewrite ref_row_length, En; lia).
+  rewrite teval_curve; [|exact Fcp|lia|exact Hc]. rewrite lc_rowsum by lia. rewrite Lr.
+  apply sumf_ext. intros i Hi. rewrite ref_row_nonperiodic by lia. reflexivity.
+Qed.
+
+Theorem curve_deriv_start_spec d v : (d < p)%nat -> @obj_deriv R NumR tol o [d] [true] [K (p - 1)%nat] = Ok v ->
+  forall c, (c < o_dim o)%nat ->
+  coord c v = sumf (fun i => dB true K d (p - 1) i (K (p - 1)%nat) * coord c (nth i (o_cps o) [])) 0 n.
+Proof.
+  intros Hd Hev c Hc. unfold obj_deriv in Hev. rewrite Eb, Er in Hev. cbn [validate hd tl] in Hev.
+  destruct (@validate1 R NumR tol b (K (p - 1)%nat)) as [t'|e] eqn:EV; [|discriminate].
+  assert (Et' : t' = @snap1 R NumR k tol (K (p - 1)%nat)).
+  { unfold validate1 in EV. cbv zeta in EV. destruct (_ && _); [discriminate|]. injection EV as <-. reflexivity. }
+  injection Hev as <-. unfold eval_h, rows_at, o_ncomp. rewrite Eb, Er. cbn [length seq map nth]. rewrite Nat.add_0_r, Et'.
+  rewrite (basis_row_start k p 0 tol HK Hp Hlen Htol Hdom ltac:(lia) b d eq_refl eq_refl Eper Hd).
+  apply curve_end_core. exact Hc.
+Qed.
+
+Theorem curve_deriv_end_spec d v : (d < p)%nat -> @obj_deriv R NumR tol o [d] [true] [K (length k - p)%nat] = Ok v ->
+  forall c, (c < o_dim o)%nat ->
+  coord c v = sumf (fun i => dB false K d (p - 1) i (K (length k - p)%nat) * coord c (nth i (o_cps o) [])) 0 n.
+Proof.
+  intros Hd Hev c Hc. unfold obj_deriv in Hev. rewrite Eb, Er in Hev. cbn [validate hd tl] in Hev.
+  destruct (@validate1 R NumR tol b (K (length k - p)%nat)) as [t'|e] eqn:EV; [|discriminate].
+  assert (Et' : t' = @snap1 R NumR k tol (K (length k - p)%nat)).
+  { unfold validate1 in EV. cbv zeta in EV. destruct (_ && _); [discriminate|]. injection EV as <-. reflexivity. }
+  injection Hev as <-. unfold eval_h, rows_at, o_ncomp. rewrite Eb, Er. cbn [length seq map nth]. rewrite Nat.add_0_r, Et'.
+  rewrite (basis_row_end k p 0 tol HK Hp Hlen Htol Hdom ltac:(lia) b d true eq_refl eq_refl Eper Hd (fun _ => eq_refl)).
+  apply curve_end_core. exact Hc.
+Qed.
+Lemma curve_deriv_ends_defined d :
+  (exists v, @obj_deriv R NumR tol o [d] [true] [K (p - 1)%nat] = Ok v) /\
+  (exists v, @obj_deriv R NumR tol o [d] [true] [K (length k - p)%nat] = Ok v).
+Proof.
+  assert (Hse : K (p - 1)%nat <= K (length k - p)%nat) by (apply HK; lia).
+  split; [exists (@eval_h R NumR tol o [d] [true] [K (p - 1)%nat])|exists (@eval_h R NumR tol o [d] [true] [K (length k - p)%nat])];
+    unfold obj_deriv; rewrite Eb, Er; cbn [validate hd tl]; unfold validate1; cbv zeta; unfold b_start, b_end.
+  - rewrite (snap1_knot k HK tol Htol (p - 1)) by lia. cbn [nltb NumR].
+    destruct (Rltb_spec (K (p - 1)%nat) (K (p - 1)%nat)); [lra|]. destruct (Rltb_spec (K (length k - p)%nat) (K (p - 1)%nat)); [lra|].
+    cbn [orb]. rewrite andb_false_r. reflexivity.
+  - rewrite (snap1_knot k HK tol Htol (length k - p)) by lia. cbn [nltb NumR].
+    destruct (Rltb_spec (K (length k - p)%nat) (K (p - 1)%nat)); [lra|]. destruct (Rltb_spec (K (length k - p)%nat) (K (length k - p)%nat)); [lra|].
+    cbn [orb]. rewrite andb_false_r. reflexivity.
+Qed.
+End CurveEndsSpec.
+
+(* ================= 9. cubic_curve end conditions as identities between the control points and the derivative
+   recurrence (NATURAL, TANGENT, TANGENTNATURAL: knots = [t0]*3 + t + [tn]*3) ================= *)
+Section CubicSpec.
+Variables (tol : R) (bt : nat) (t : list R) (x tang : list (list R)) (o : obj R).
+Hypothesis Hres : @cubic_curve R NumR tol bt t x tang = Ok o.
+Hypothesis Hbt : In bt [1; 4; 5]%nat.
+Hypothesis Hx : length x = length t.
+Hypothesis Ht : (2 <= length t)%nat.
+Hypothesis Hsorted : sorted (kn (@cubic_knots R NumR bt t)).
+Hypothesis Htol : 0 < tol.
+Hypothesis Hdom : tol <= last t 0 - hd 0 t.
+Local Notation N := (length t).
+Local Notation k := (@cubic_knots R NumR bt t).
+Local Notation K := (@kn R NumR k).
+Local Notation b := (mkBasis 4 k 0).
+Local Notation dim := (length (hd [] x)).
+Local Notation cp := (fun (i c : nat) => coord c (nth i (o_cps o) [])).
+
+Lemma cubic_base_knots : k = repeat (hd 0 t) 3 ++ t ++ repeat (last t 0) 3.
+Proof. unfold cubic_knots. cbv zeta. cbn [In] in Hbt. destruct Hbt as [<-|[<-|[<-|[]]]]; reflexivity. Qed.
+Lemma cubic_base_length : length k = (N + 6)%nat.
+Proof. rewrite cubic_base_knots, !app_length, !repeat_length. lia. Qed.
+Lemma cubic_base_start : K 3 = hd 0 t.
+Proof.
+  rewrite (kn_in k 3 ltac:(rewrite cubic_base_length; lia) 0), cubic_base_knots.
+  rewrite app_nth2 by (rewrite repeat_length; lia). rewrite repeat_length. cbn [Nat.sub].
+  rewrite app_nth1 by lia. destruct t; [cbn in Ht; lia|reflexivity].
+Qed.
+Lemma cubic_base_end : K (N + 2) = last t 0.
+Proof.
+  rewrite (kn_in k (N + 2) ltac:(rewrite cubic_base_length; lia) 0), cubic_base_knots.
+  rewrite app_nth2 by (rewrite repeat_length; lia). rewrite repeat_length.
+  rewrite app_nth1 by lia. replace (N + 2 - 3)%nat with (N - 1)%nat by lia. symmetry. apply last_nth.
+  destruct t; [cbn in Ht; lia|discriminate].
+Qed.
+
+Lemma cubic_spec_setup :
+  In bt [0; 1; 2; 4; 5]%nat /\ (bt = 2%nat -> length tang = N) /\ @b_nfun R b = (N + 2)%nat /\
+  tol <= K (length k - 4) - K (4 - 1).
+Proof.
+  split; [cbn [In] in *; tauto|]. split; [intros E; cbn [In] in Hbt; lia|]. split.
+  - unfold b_nfun. cbn [b_knots b_order b_per1]. rewrite cubic_base_length. lia.
+  - rewrite cubic_base_length. replace (N + 6 - 4)%nat with (N + 2)%nat by lia. change (4 - 1)%nat with 3%nat.
+    rewrite cubic_base_start, cubic_base_end. exact Hdom.
+Qed.
+
+(* the value the curve's d-th derivative takes at the start (from the right) and at the end (from the left) *)
+Lemma cubic_deriv_ends_spec d : (d < 4)%nat -> exists v0 vn,
+  @obj_deriv R NumR tol o [d] [true] [hd 0 t] = Ok v0 /\ @obj_deriv R NumR tol o [d] [true] [last t 0] = Ok vn /\
+  (forall c, (c < dim)%nat -> coord c v0 = sumf (fun i => dB true K d 3 i (hd 0 t) * cp i c) 0 (N + 2)) /\
+  (forall c, (c < dim)%nat -> coord c vn = sumf (fun i => dB false K d 3 i (last t 0) * cp i c) 0 (N + 2)).
+Proof.
+  intros Hd. destruct cubic_spec_setup as (Hbt' & Htang & En & Hdom').
+  destruct (cubic_obj tol bt t x tang o Hres Hbt' Hx Ht Hsorted Htang) as (Eb & Er & Ed & Hcp).
+  rewrite <- Ed in Hcp.
+  assert (Hlen : (2 * b_order b <= length (b_knots b))%nat) by (cbn [b_order b_knots]; rewrite cubic_base_length; lia).
+  destruct (curve_deriv_ends_defined tol o b Eb Er eq_refl Hsorted ltac:(cbn; lia) Hlen Htol d) as [[v0 E0] [vn En']].
+  pose proof (curve_deriv_start_spec tol o b Eb Er eq_refl Hsorted ltac:(cbn; lia) Hlen Htol Hdom' Hcp d v0 Hd E0) as S0.
+  pose proof (curve_deriv_end_spec tol o b Eb Er eq_refl Hsorted ltac:(cbn; lia) Hlen Htol Hdom' Hcp d vn Hd En') as Sn.
+  cbn [b_knots b_order] in E0, En', S0, Sn. rewrite En in S0, Sn. rewrite Ed in S0, Sn.
+  change (4 - 1)%nat with 3%nat in E0, S0, Sn. rewrite cubic_base_length in En', Sn. replace (N + 6 - 4)%nat with (N + 2)%nat in En', Sn by lia.
+  rewrite cubic_base_start in E0, S0. rewrite cubic_base_end in En', Sn.
+  exists v0, vn. repeat split; assumption.
+Qed.
+
+(* NATURAL: sum_i c_i B_i''(t0+) = 0 and sum_i c_i B_i''(tn-) = 0 *)
+Theorem cubic_natural_spec c : bt = 1%nat -> (c < dim)%nat ->
+  sumf (fun i => dB true K 2 3 i (hd 0 t) * cp i c) 0 (N + 2) = 0 /\
+  sumf (fun i => dB false K 2 3 i (last t 0) * cp i c) 0 (N + 2) = 0.
+Proof.
+  intros E Hc. destruct cubic_spec_setup as (Hbt' & Htang & _).
+  destruct (cubic_deriv_ends_spec 2 ltac:(lia)) as (v0 & vn & E0 & En & S0 & Sn).
+  destruct (cubic_natural_ends tol bt t x tang o Hres Hbt' Hx Ht Hsorted Htol Htang v0 E) as [A _].
+  destruct (cubic_natural_ends tol bt t x tang o Hres Hbt' Hx Ht Hsorted Htol Htang vn E) as [_ B].
+  rewrite <- (S0 c Hc), <- (Sn c Hc). split; [apply A|apply B]; assumption.
+Qed.
+
+(* TANGENT: sum_i c_i B_i'(t0+) = tangent_0 and sum_i c_i B_i'(tn-) = tangent_1 *)
+Theorem cubic_tangent_spec c : bt = 4%nat -> length tang = 2%nat -> (c < dim)%nat ->
+  sumf (fun i => dB true K 1 3 i (hd 0 t) * cp i c) 0 (N + 2) = nth c (nth 0 tang []) 0 /\
+  sumf (fun i => dB false K 1 3 i (last t 0) * cp i c) 0 (N + 2) = nth c (nth 1 tang []) 0.
+Proof.
+  intros E Lt Hc. destruct cubic_spec_setup as (Hbt' & Htang & _).
+  destruct (cubic_deriv_ends_spec 1 ltac:(lia)) as (v0 & vn & E0 & En & S0 & Sn).
+  destruct (cubic_tangent_ends tol bt t x tang o Hres Hbt' Hx Ht Hsorted Htol Htang v0 E Lt) as [A _].
+  destruct (cubic_tangent_ends tol bt t x tang o Hres Hbt' Hx Ht Hsorted Htol Htang vn E Lt) as [_ B].
+  rewrite <- (S0 c Hc), <- (Sn c Hc). split; [apply A|apply B]; assumption.
+Qed.
+
+(* TANGENTNATURAL *)
+Theorem cubic_tangentnatural_spec c : bt = 5%nat -> length tang = 1%nat -> (c < dim)%nat ->
+  sumf (fun i => dB true K 1 3 i (hd 0 t) * cp i c) 0 (N + 2) = nth c (nth 0 tang []) 0 /\
+  sumf (fun i => dB false K 2 3 i (last t 0) * cp i c) 0 (N + 2) = 0.
+Proof.
+  intros E Lt Hc. destruct cubic_spec_setup as (Hbt' & Htang & _).
+  destruct (cubic_deriv_ends_spec 1 ltac:(lia)) as (v0 & _ & E0 & _ & S0 & _).
+  destruct (cubic_deriv_ends_spec 2 ltac:(lia)) as (_ & vn & _ & En & _ & Sn).
+  destruct (cubic_tangentnatural_ends tol bt t x tang o Hres Hbt' Hx Ht Hsorted Htol Htang v0 E Lt) as [A _].
+  destruct (cubic_tangentnatural_ends tol bt t x tang o Hres Hbt' Hx Ht Hsorted Htol Htang vn E Lt) as [_ B].
+  rewrite <- (S0 c Hc), <- (Sn c Hc). split; [apply A|apply B]; assumption.
+Qed.
+End CubicSpec.
+
+(* ================= 10. least squares for volumes ================= *)
+Section VolumeLsq.
+Variables (tol : R) (bu bv bw : basis R) (us vs ws : list R) (x : list (list R)) (o : obj R).
+Hypothesis Hres : @volume_lsq R NumR tol bu bv bw us vs ws x = Ok o.
+Local Notation nu := (@b_nfun R bu).
+Local Notation nv := (@b_nfun R bv).
+Local Notation nw := (@b_nfun R bw).
+Local Notation lu := (length us).
+Local Notation lv := (length vs).
+Local Notation lw := (length ws).
+Local Notation Nu := (@colloc R NumR tol bu 0 us).
+Local Notation Nv := (@colloc R NumR tol bv 0 vs).
+Local Notation Nw := (@colloc R NumR tol bw 0 ws).
+Local Notation NuT := (@transpose R NumR nu Nu).
+Local Notation NvT := (@transpose R NumR nv Nv).
+Local Notation NwT := (@transpose R NumR nw Nw).
+Local Notation Au := (@matmul R NumR NuT Nu).
+Local Notation Av := (@matmul R NumR NvT Nv).
+Local Notation Aw := (@matmul R NumR NwT Nw).
+Local Notation dim := (length (hd [] x)).
+Hypothesis Hnu : (0 < nu)%nat.
+Hypothesis Hnv : (0 < nv)%nat.
+Hypothesis Hnw : (0 < nw)%nat.
+Hypothesis Hlu : (0 < lu)%nat.
+Hypothesis Hlv : (0 < lv)%nat.
+Hypothesis Hlw : (0 < lw)%nat.
+Hypothesis Hx : mat (lu * lv * lw) dim x.
+
+Local Notation fit := (fun Gu Gv Gw : list (list R) =>
+  @apply_dir R NumR dim [nu; nv; nw] 0 Gu (@apply_dir R NumR dim [nu; nv; nw] 1 Gv (@apply_dir R NumR dim [nu; nv; nw] 2 Gw
+    (@apply_dir R NumR dim [lu; nv; nw] 0 NuT (@apply_dir R NumR dim [lu; lv; nw] 1 NvT (@apply_dir R NumR dim [lu; lv; lw] 2 NwT x)))))).
+
+Lemma volume_lsq_unpack : exists Gu Gv Gw,
+  o = mkObj [bu; bv; bw] (fit Gu Gv Gw) dim false /\
+  (mat lu nu Nu /\ mat lv nv Nv /\ mat lw nw Nw) /\ (mat nu lu NuT /\ mat nv lv NvT /\ mat nw lw NwT) /\
+  (mat nu nu Au /\ mat nv nv Av /\ mat nw nw Aw) /\ (mat nu nu Gu /\ mat nv nv Gv /\ mat nw nw Gw) /\
+  (@matmul R NumR Au Gu = @ident R NumR nu /\ @matmul R NumR Av Gv = @ident R NumR nv /\ @matmul R NumR Aw Gw = @ident R NumR nw) /\
+  (@matmul R NumR Gu Au = @ident R NumR nu /\ @matmul R NumR Gv Av = @ident R NumR nv /\ @matmul R NumR Gw Aw = @ident R NumR nw).
+Proof.
+  unfold volume_lsq in Hres. cbv zeta in Hres.
+  destruct (@inverse R NumR Aw) as [Gw|e] eqn:EW; [|discriminate].
+  destruct (@inverse R NumR Av) as [Gv|e] eqn:EV; [|discriminate].
+  destruct (@inverse R NumR Au) as [Gu|e] eqn:EU; [|discriminate].
+  exists Gu, Gv, Gw. split; [injection Hres as <-; reflexivity|].
+  pose proof (colloc_mat tol bu 0 us) as HNu. pose proof (colloc_mat tol bv 0 vs) as HNv. pose proof (colloc_mat tol bw 0 ws) as HNw.
+  pose proof (transpose_mat lu nu Nu HNu) as HNuT. pose proof (transpose_mat lv nv Nv HNv) as HNvT. pose proof (transpose_mat lw nw Nw HNw) as HNwT.
+  pose proof (matmul_mat nu lu nu NuT Nu HNuT HNu Hlu) as HAu. pose proof (matmul_mat nv lv nv NvT Nv HNvT HNv Hlv) as HAv.
+  pose proof (matmul_mat nw lw nw NwT Nw HNwT HNw Hlw) as HAw.
+  assert (LU : length Au = nu) by (destruct HAu; assumption). assert (LV : length Av = nv) by (destruct HAv; assumption).
+  assert (LW : length Aw = nw) by (destruct HAw; assumption).
+  apply inverse_spec in EU. rewrite LU in EU. destruct EU as (EU1 & EU2 & HGu).
+  apply inverse_spec in EV. rewrite LV in EV. destruct EV as (EV1 & EV2 & HGv).
+  apply inverse_spec in EW. rewrite LW in EW. destruct EW as (EW1 & EW2 & HGw).
+  exact (conj (conj HNu (conj HNv HNw)) (conj (conj HNuT (conj HNvT HNwT)) (conj (conj HAu (conj HAv HAw))
+        (conj (conj HGu (conj HGv HGw)) (conj (conj EU1 (conj EV1 EW1)) (conj EU2 (conj EV2 EW2))))))).
+Qed.
+
+Lemma volume_lsq_chain Gu Gv Gw R0 R1 R2 c :
+  mat nu nu Gu -> mat nv nv Gv -> mat nw nw Gw -> length R0 = nu -> length R1 = nv -> length R2 = nw -> (c < dim)%nat ->
+  tsum [R0; R1; R2] (cnet dim c (fit Gu Gv Gw))
+  = tsum [rowmat (rowmat R0 Gu) NuT; rowmat (rowmat R1 Gv) NvT; rowmat (rowmat R2 Gw) NwT] (cnet dim c x).
+Proof.
+  intros HGu HGv HGw L0 L1 L2 Hc.
+  pose proof (colloc_mat tol bu 0 us) as HNu. pose proof (colloc_mat tol bv 0 vs) as HNv. pose proof (colloc_mat tol bw 0 ws) as HNw.
+  pose proof (transpose_mat lu nu Nu HNu) as HNuT. pose proof (transpose_mat lv nv Nv HNv) as HNvT. pose proof (transpose_mat lw nw Nw HNw) as HNwT.
+  destruct Hx as [Lx Fx].
+  assert (PP : forall a b c0 : nat, (0 < a)%nat -> (0 < b)%nat -> (0 < c0)%nat -> (0 < prodl [a; b; c0])%nat) by (intros; cbn [prodl fold_right]; nia).
+  assert (Ok0 : okn dim [lu; lv; lw] x) by (split; [exact Fx|cbn [prodl fold_right]; lia]).
+  set (y1 := @apply_dir R NumR dim [lu; lv; lw] 2 NwT x).
+  assert (Ok1 : okn dim [lu; lv; nw] y1) by (apply (okn_apply_dir dim NwT nw lw [lu; lv; lw] 2); [exact HNwT|cbn; lia|apply PP; assumption|exact Ok0]).
+  set (y2 := @apply_dir R NumR dim [lu; lv; nw] 1 NvT y1).
+  assert (Ok2 : okn dim [lu; nv; nw] y2) by (apply (okn_apply_dir dim NvT nv lv [lu; lv; nw] 1); [exact HNvT|cbn; lia|apply PP; assumption|exact Ok1]).
+  set (y3 := @apply_dir R NumR dim [lu; nv; nw] 0 NuT y2).
+  assert (Ok3 : okn dim [nu; nv; nw] y3) by (apply (okn_apply_dir dim NuT nu lu [lu; nv; nw] 0); [exact HNuT|cbn; lia|apply PP; assumption|exact Ok2]).
+  set (y4 := @apply_dir R NumR dim [nu; nv; nw] 2 Gw y3).
+  assert (Ok4 : okn dim [nu; nv; nw] y4) by (apply (okn_apply_dir dim Gw nw nw [nu; nv; nw] 2); [exact HGw|cbn; lia|apply PP; assumption|exact Ok3]).
+  set (y5 := @apply_dir R NumR dim [nu; nv; nw] 1 Gv y4).
+  assert (Ok5 : okn dim [nu; nv; nw] y5) by (apply (okn_apply_dir dim Gv nv nv [nu; nv; nw] 1); [exact HGv|cbn; lia|apply PP; assumption|exact Ok4]).
+  set (A0 := rowmat R0 Gu). set (A1 := rowmat R1 Gv). set (A2 := rowmat R2 Gw).
+  assert (LA0 : length A0 = nu) by (apply (rowmat_length nu nu); assumption).
+  assert (LA1 : length A1 = nv) by (apply (rowmat_length nv nv); assumption).
+  assert (LA2 : length A2 = nw) by (apply (rowmat_length nw nw); assumption).
+  set (B0 := rowmat A0 NuT). set (B1 := rowmat A1 NvT). set (B2 := rowmat A2 NwT).
+  assert (LB0 : length B0 = lu) by (apply (rowmat_length nu lu); assumption).
+  assert (LB1 : length B1 = lv) by (apply (rowmat_length nv lv); assumption).
+  assert (LB2 : length B2 = lw) by (apply (rowmat_length nw lw); assumption).
+  rewrite (tsum_step' dim c Gu nu nu [R0; R1; R2] [A0; R1; R2] 0 [nu; nv; nw] y5);
+    [|reflexivity|cbn [map length]; rewrite LA0, L1, L2; reflexivity|cbn; lia|exact Hc|exact HGu|exact Hnu|exact L0|exact Ok5|apply PP; assumption].
+  unfold y5. rewrite (tsum_step' dim c Gv nv nv [A0; R1; R2] [A0; A1; R2] 1 [nu; nv; nw] y4);
+    [|reflexivity|cbn [map length]; rewrite LA0, LA1, L2; reflexivity|cbn; lia|exact Hc|exact HGv|exact Hnv|exact L1|exact Ok4|apply PP; assumption].
+  unfold y4. rewrite (tsum_step' dim c Gw nw nw [A0; A1; R2] [A0; A1; A2] 2 [nu; nv; nw] y3);
+    [|reflexivity|cbn [map length]; rewrite LA0, LA1, LA2; reflexivity|cbn; lia|exact Hc|exact HGw|exact Hnw|exact L2|exact Ok3|apply PP; assumption].
+  unfold y3. rewrite (tsum_step' dim c NuT nu lu [A0; A1; A2] [B0; A1; A2] 0 [lu; nv; nw] y2);
+    [|reflexivity|cbn [map length]; rewrite LB0, LA1, LA2; reflexivity|cbn; lia|exact Hc|exact HNuT|exact Hnu|exact LA0|exact Ok2|apply PP; assumption].
+  unfold y2. rewrite (tsum_step' dim c NvT nv lv [B0; A1; A2] [B0; B1; A2] 1 [lu; lv; nw] y1);
+    [|reflexivity|cbn [map length]; rewrite LB0, LB1, LA2; reflexivity|cbn; lia|exact Hc|exact HNvT|exact Hnv|exact LA1|exact Ok1|apply PP; assumption].
+  unfold y1. rewrite (tsum_step' dim c NwT nw lw [B0; B1; A2] [B0; B1; B2] 2 [lu; lv; lw] x);
+    [|reflexivity|cbn [map length]; rewrite LB0, LB1, LB2; reflexivity|cbn; lia|exact Hc|exact HNwT|exact Hnw|exact LA2|exact Ok0|apply PP; assumption].
+  reflexivity.
+Qed.
+
+Lemma volume_lsq_net : okn dim [nu; nv; nw] (o_cps o) /\ o_bases o = [bu; bv; bw] /\ o_rat o = false /\ o_dim o = dim.
+Proof.
+  destruct volume_lsq_unpack as (Gu & Gv & Gw & -> & _ & (HNuT & HNvT & HNwT) & _ & (HGu & HGv & HGw) & _). cbn [o_cps o_bases o_rat o_dim].
+  split; [|repeat split]. destruct Hx as [Lx Fx].
+  assert (PP : forall a b c0 : nat, (0 < a)%nat -> (0 < b)%nat -> (0 < c0)%nat -> (0 < prodl [a; b; c0])%nat) by (intros; cbn [prodl fold_right]; nia).
+  apply (okn_apply_dir dim Gu nu nu [nu; nv; nw] 0); [exact HGu|cbn; lia|apply PP; assumption|].
+  apply (okn_apply_dir dim Gv nv nv [nu; nv; nw] 1); [exact HGv|cbn; lia|apply PP; assumption|].
+  apply (okn_apply_dir dim Gw nw nw [nu; nv; nw] 2); [exact HGw|cbn; lia|apply PP; assumption|].
+  apply (okn_apply_dir dim NuT nu lu [lu; nv; nw] 0); [exact HNuT|cbn; lia|apply PP; assumption|].
+  apply (okn_apply_dir dim NvT nv lv [lu; lv; nw] 1); [exact HNvT|cbn; lia|apply PP; assumption|].
+  apply (okn_apply_dir dim NwT nw lw [lu; lv; lw] 2); [exact HNwT|cbn; lia|apply PP; assumption|].
+  split; [exact Fx|cbn [prodl fold_right]; lia].
+Qed.
+
+(* normal equations of the trivariate fit, entry by entry *)
+Theorem volume_lsq_normal_equations a b c e : (a < nu)%nat -> (b < nv)%nat -> (c < nw)%nat -> (e < dim)%nat ->
+  tsum [nth a Au []; nth b Av []; nth c Aw []] (cnet dim e (o_cps o)) = tsum [nth a NuT []; nth b NvT []; nth c NwT []] (cnet dim e x).
+Proof.
+  intros Ha Hb Hc He.
+  destruct volume_lsq_unpack as (Gu & Gv & Gw & -> & _ & (HNuT & HNvT & HNwT) & (HAu & HAv & HAw) & (HGu & HGv & HGw) & (EU1 & EV1 & EW1) & _). cbn [o_cps].
+  assert (RA : length (nth a Au []) = nu) by (apply (mat_row nu nu); assumption).
+  assert (RB : length (nth b Av []) = nv) by (apply (mat_row nv nv); assumption).
+  assert (RC : length (nth c Aw []) = nw) by (apply (mat_row nw nw); assumption).
+  rewrite (volume_lsq_chain Gu Gv Gw _ _ _ e HGu HGv HGw RA RB RC He).
+  rewrite <- (rowmat_unit nu nu Au a HAu Hnu Ha). rewrite <- (rowmat_unit nv nv Av b HAv Hnv Hb). rewrite <- (rowmat_unit nw nw Aw c HAw Hnw Hc).
+  rewrite (rowmat_assoc nu nu nu _ Au Gu (unit_row_length nu a) HAu HGu Hnu Hnu), EU1.
+  rewrite (rowmat_assoc nv nv nv _ Av Gv (unit_row_length nv b) HAv HGv Hnv Hnv), EV1.
+  rewrite (rowmat_assoc nw nw nw _ Aw Gw (unit_row_length nw c) HAw HGw Hnw Hnw), EW1.
+  rewrite !rowmat_ident by (try apply unit_row_length; assumption).
+  rewrite (rowmat_unit nu lu NuT a HNuT Hnu Ha), (rowmat_unit nv lv NvT b HNvT Hnv Hb), (rowmat_unit nw lw NwT c HNwT Hnw Hc). reflexivity.
+Qed.
+
+(* projection: data sampled on the grid from a volume of the space (net c0) returns that volume *)
+Theorem volume_lsq_projection c0 : okn dim [nu; nv; nw] c0 ->
+  x = @apply_dir R NumR dim [nu; lv; lw] 0 Nu (@apply_dir R NumR dim [nu; nv; lw] 1 Nv (@apply_dir R NumR dim [nu; nv; nw] 2 Nw c0)) ->
+  o_cps o = c0.
+Proof.
+  intros Hc0 Ex. destruct volume_lsq_net as ([FO LO] & _).
+  destruct volume_lsq_unpack as (Gu & Gv & Gw & EO & (HNu & HNv & HNw) & (HNuT & HNvT & HNwT) & (HAu & HAv & HAw) & (HGu & HGv & HGw) & _ & (EU2 & EV2 & EW2)).
+  destruct Hc0 as [F0 L0]. cbn [prodl fold_right] in LO, L0.
+  assert (PP : forall a b c1 : nat, (0 < a)%nat -> (0 < b)%nat -> (0 < c1)%nat -> (0 < prodl [a; b; c1])%nat) by (intros; cbn [prodl fold_right]; nia).
+  apply (nth_ext _ _ (@vzero R NumR dim) (@vzero R NumR dim)); [lia|]. intros idx Hidx. rewrite LO in Hidx.
+  assert (Habc : exists a b c, (a < nu)%nat /\ (b < nv)%nat /\ (c < nw)%nat /\ idx = ((a * nv + b) * nw + c)%nat).
+  { exists (idx / nw / nv)%nat, ((idx / nw) mod nv)%nat, (idx mod nw)%nat.
+    assert (H1 : (idx / nw < nu * nv)%nat) by (apply Nat.div_lt_upper_bound; lia).
+    split; [apply Nat.div_lt_upper_bound; lia|]. split; [apply Nat.mod_upper_bound; lia|]. split; [apply Nat.mod_upper_bound; lia|].
+    rewrite (Nat.div_mod idx nw) at 1 by lia. rewrite (Nat.div_mod (idx / nw) nv) at 1 by lia. lia. }
+  destruct Habc as (a & b & c & Ha & Hb & Hc & ->).
+  assert (Hlt : ((a * nv + b) * nw + c < nu * nv * nw)%nat) by (apply idx3_lt; assumption).
+  assert (Len1 : length (nth ((a * nv + b) * nw + c) (o_cps o) (@vzero R NumR dim)) = dim).
+  { rewrite Forall_forall in FO. apply FO, nth_In. lia. }
+  assert (Len2 : length (nth ((a * nv + b) * nw + c) c0 (@vzero R NumR dim)) = dim).
+  { rewrite Forall_forall in F0. apply F0, nth_In. lia. }
+  apply (nth_ext _ _ 0 0); [lia|]. intros e He. rewrite Len1 in He.
+  change (cnet dim e (o_cps o) ((a * nv + b) * nw + c)%nat = cnet dim e c0 ((a * nv + b) * nw + c)%nat).
+  rewrite <- (tsum_units3 nu nv nw a b c (cnet dim e (o_cps o)) Ha Hb Hc). rewrite <- (tsum_units3 nu nv nw a b c (cnet dim e c0) Ha Hb Hc).
+  rewrite EO. cbn [o_cps].
+  rewrite (volume_lsq_chain Gu Gv Gw _ _ _ e HGu HGv HGw (unit_row_length nu a) (unit_row_length nv b) (unit_row_length nw c) He).
+  set (A0 := rowmat (unit_row nu a) Gu). set (A1 := rowmat (unit_row nv b) Gv). set (A2 := rowmat (unit_row nw c) Gw).
+  assert (LA0 : length A0 = nu) by (apply (rowmat_length nu nu); try assumption; apply unit_row_length).
+  assert (LA1 : length A1 = nv) by (apply (rowmat_length nv nv); try assumption; apply unit_row_length).
+  assert (LA2 : length A2 = nw) by (apply (rowmat_length nw nw); try assumption; apply unit_row_length).
+  set (B0 := rowmat A0 NuT). set (B1 := rowmat A1 NvT). set (B2 := rowmat A2 NwT).
+  assert (LB0 : length B0 = lu) by (apply (rowmat_length nu lu); assumption).
+  assert (LB1 : length B1 = lv) by (apply (rowmat_length nv lv); assumption).
+  assert (LB2 : length B2 = lw) by (apply (rowmat_length nw lw); assumption).
+  assert (E0 : rowmat B0 Nu = unit_row nu a).
+  { unfold B0. rewrite (rowmat_assoc nu lu nu A0 NuT Nu LA0 HNuT HNu Hnu Hlu). unfold A0.
+    rewrite (rowmat_assoc nu nu nu _ Gu Au (unit_row_length nu a) HGu HAu Hnu Hnu), EU2. apply rowmat_ident; [apply unit_row_length|exact Hnu]. }
+  assert (E1 : rowmat B1 Nv = unit_row nv b).
+  { unfold B1. rewrite (rowmat_assoc nv lv nv A1 NvT Nv LA1 HNvT HNv Hnv Hlv). unfold A1.
+    rewrite (rowmat_assoc nv nv nv _ Gv Av (unit_row_length nv b) HGv HAv Hnv Hnv), EV2. apply rowmat_ident; [apply unit_row_length|exact Hnv]. }
+  assert (E2 : rowmat B2 Nw = unit_row nw c).
+  { unfold B2. rewrite (rowmat_assoc nw lw nw A2 NwT Nw LA2 HNwT HNw Hnw Hlw). unfold A2.
+    rewrite (rowmat_assoc nw nw nw _ Gw Aw (unit_row_length nw c) HGw HAw Hnw Hnw), EW2. apply rowmat_ident; [apply unit_row_length|exact Hnw]. }
+  assert (EX : cnet dim e x = cnet dim e (@apply_dir R NumR dim [nu; lv; lw] 0 Nu (@apply_dir R NumR dim [nu; nv; lw] 1 Nv (@apply_dir R NumR dim [nu; nv; nw] 2 Nw c0))))
+    by (rewrite <- Ex; reflexivity).
+  rewrite EX.
+  assert (Okc : okn dim [nu; nv; nw] c0) by (split; [exact F0|cbn [prodl fold_right]; lia]).
+  set (z1 := @apply_dir R NumR dim [nu; nv; nw] 2 Nw c0).
+  assert (Okz1 : okn dim [nu; nv; lw] z1) by (apply (okn_apply_dir dim Nw lw nw [nu; nv; nw] 2); [exact HNw|cbn; lia|apply PP; assumption|exact Okc]).
+  set (z2 := @apply_dir R NumR dim [nu; nv; lw] 1 Nv z1).
+  assert (Okz2 : okn dim [nu; lv; lw] z2) by (apply (okn_apply_dir dim Nv lv nv [nu; nv; lw] 1); [exact HNv|cbn; lia|apply PP; assumption|exact Okz1]).
+  rewrite (tsum_step' dim e Nu lu nu [B0; B1; B2] [unit_row nu a; B1; B2] 0 [nu; lv; lw] z2);
+    [|cbn [upd nth]; rewrite E0; reflexivity|cbn [map length]; rewrite unit_row_length, LB1, LB2; reflexivity|cbn; lia|exact He|exact HNu|exact Hlu|exact LB0|exact Okz2|apply PP; assumption].
+  unfold z2. rewrite (tsum_step' dim e Nv lv nv [unit_row nu a; B1; B2] [unit_row nu a; unit_row nv b; B2] 1 [nu; nv; lw] z1);
+    [|cbn [upd nth]; rewrite E1; reflexivity|cbn [map length]; rewrite !unit_row_length, LB2; reflexivity|cbn; lia|exact He|exact HNv|exact Hlv|exact LB1|exact Okz1|apply PP; assumption].
+  unfold z1. rewrite (tsum_step' dim e Nw lw nw [unit_row nu a; unit_row nv b; B2] [unit_row nu a; unit_row nv b; unit_row nw c] 2 [nu; nv; nw] c0);
+    [|cbn [upd nth]; rewrite E2; reflexivity|cbn [map length]; rewrite !unit_row_length; reflexivity|cbn; lia|exact He|exact HNw|exact Hlw|exact LB2|exact Okc|apply PP; assumption].
+  reflexivity.
+Qed.
+End VolumeLsq.
+
+(* ================= non-vacuity: exact rational runs of the models (numbers compared with the real code, see report) ================= *)
+From Coq Require Import QArith.
+Definition exq_tol : Q := (1#100000000000)%Q.
+Definition exq_t : list Q := [0; 1; 5#2; 3; 4]%Q.
+Definition exq_x : list (list Q) := [[0; 0]; [2; 1]; [3; 3]; [1; 4]; [-1; 2]]%Q.
+Definition exq_d (o : obj Q) (d : nat) (t : Q) : list Q :=
+  match @obj_deriv Q NumQ exq_tol o [d] [true] [t] with Ok v => map Qred v | Err _ => [] end.
+(* NATURAL: second derivative zero at both ends; first control points 583/936 = 0.622863..., 649/1872 = 0.346688... *)
+Example cubic_natural_example :
+  match @cubic_curve Q NumQ exq_tol 1 exq_t exq_x [] with
+  | Ok o => map Qred (nth 1 (o_cps o) []) = [583#936; 649#1872]%Q /\ exq_d o 2 0 = [0; 0]%Q /\ exq_d o 2 4 = [0; 0]%Q
+  | Err _ => False end.
+Proof. vm_compute. repeat split; reflexivity. Qed.
+Example cubic_tangent_example :
+  match @cubic_curve Q NumQ exq_tol 4 exq_t exq_x [[1; 0]; [0; -2]]%Q with
+  | Ok o => map Qred (nth 2 (o_cps o) []) = [327#136; 605#408]%Q /\ exq_d o 1 0 = [1; 0]%Q /\ exq_d o 1 4 = [0; -2]%Q
+  | Err _ => False end.
+Proof. vm_compute. repeat split; reflexivity. Qed.
+Example cubic_hermite_example :
+  match @cubic_curve Q NumQ exq_tol 2 exq_t exq_x [[1; 0]; [1; 1]; [0; 1]; [-1; 0]; [0; -2]]%Q with
+  | Ok o => map Qred (nth 5 (o_cps o) []) = [3; 19#6]%Q /\
+            map (fun t => exq_d o 1 t) exq_t = [[1; 0]; [1; 1]; [0; 1]; [-1; 0]; [0; -2]]%Q
+  | Err _ => False end.
+Proof. vm_compute. repeat split; reflexivity. Qed.
+Example cubic_tangentnatural_example :
+  match @cubic_curve Q NumQ exq_tol 5 exq_t exq_x [[1; 1#2]]%Q with
+  | Ok o => map Qred (nth 2 (o_cps o) []) = [5293#2214; 5953#4428]%Q /\ exq_d o 1 0 = [1; 1#2]%Q /\ exq_d o 2 4 = [0; 0]%Q
+  | Err _ => False end.
+Proof. vm_compute. repeat split; reflexivity. Qed.
+Example cubic_free_example :
+  match @cubic_curve Q NumQ exq_tol 0 exq_t exq_x [] with
+  | Ok o => map b_knots (o_bases o) = [[0; 0; 0; 0; 5#2; 4; 4; 4; 4]]%Q /\ map Qred (nth 1 (o_cps o) []) = [223#378; 257#252]%Q /\
+            map (fun t => match @obj_eval Q NumQ exq_tol o [t] with Ok v => map Qred v | Err _ => [] end) exq_t = exq_x
+  | Err _ => False end.
+Proof. vm_compute. repeat split; reflexivity. Qed.
+(* PERIODIC: t = [0,1,5/2,3,4,6], closed data; knots and control points as the real code (-2545/1494 = -1.703480589...);
+   value, first and second derivative from the right at 0 = from the left at 6 *)
+Example cubic_periodic_example :
+  match @cubic_periodic Q NumQ exq_tol [0; 1; 5#2; 3; 4; 6]%Q (exq_x ++ [[0; 0]]%Q) with
+  | Ok o => map b_knots (o_bases o) = [[-7#2; -3; -2; 0; 1; 5#2; 3; 4; 6; 7; 17#2; 9]]%Q /\
+            map (map Qred) (o_cps o) = [[-2545#1494; 281#747]; [-1265#1494; -509#747]; [26915#11952; 15787#11952];
+                                         [59885#11952; 22921#11952]; [-529#11952; 58207#11952]]%Q /\
+            map (fun d => exq_d o d 0) [0; 1; 2]%nat = [[0; 0]; [1585#996; 623#996]; [315#332; 471#332]]%Q /\
+            map (fun d => match @obj_deriv Q NumQ exq_tol o [d] [false] [6%Q] with Ok v => map Qred v | Err _ => [] end) [0; 1; 2]%nat
+              = [[0; 0]; [1585#996; 623#996]; [315#332; 471#332]]%Q
+  | Err _ => False end.
+Proof. vm_compute. repeat split; reflexivity. Qed.
+(* tensor product fits *)
+Definition exq_bu : basis Q := mkBasis 3 [0; 0; 0; 1; 2; 2; 2]%Q 0.
+Definition exq_bv : basis Q := mkBasis 2 [0; 0; 1; 1]%Q 0.
+Example surface_lsq_example :
+  let us := [0; 1#2; 1; 3#2; 2]%Q in let vs := [0; 1#4; 1]%Q in
+  let X := flat_map (fun u => map (fun v => [u*u+v; u-v*u; 1+v*v]%Q) vs) us in
+  match @surface_lsq Q NumQ exq_tol exq_bu exq_bv us vs X with
+  | Ok o => map (map Qred) (o_cps o) = [[0; 0; 95#104]; [1; 0; 205#104]; [0; 1#2; 95#104]; [1; 0; 205#104];
+                                         [2; 3#2; 95#104]; [3; 0; 205#104]; [4; 2; 95#104]; [5; 0; 205#104]]%Q
+  | Err _ => False end.
+Proof. vm_compute. reflexivity. Qed.
+Example volume_interpolate_example :
+  let gu := [0; 1#2; 3#2; 2]%Q in let gv := [0; 1]%Q in
+  let X := flat_map (fun u => flat_map (fun v => map (fun w => [u*u+v+w; u-v*u*w; 1+v*w]%Q) gv) gv) gu in
+  match @volume_interpolate Q NumQ exq_tol exq_bu exq_bv exq_bv gu gv gv X with
+  | Ok o => map (map Qred) (firstn 8 (o_cps o)) = [[0; 0; 1]; [1; 0; 1]; [1; 0; 1]; [2; 0; 2]; [0; 1#2; 1]; [1; 1#2; 1]; [1; 1#2; 1]; [2; 0; 2]]%Q /\
+            (match @obj_eval Q NumQ exq_tol o [3#2; 1; 1]%Q with Ok v => map Qred v | Err _ => [] end) = [17#4; 0; 2]%Q
+  | Err _ => False end.
+Proof. vm_compute. repeat split; reflexivity. Qed.
+Example manipulate_example :
+  let crv := mkObj [exq_bu] [[0; 0]; [1; 2]; [3; -2]; [4; 0]]%Q 2 false in
+  match @manipulate_xt Q NumQ exq_tol crv (fun x t => [nth 0 x 0 + t; 2 * nth 1 x 0 - t * nth 0 x 0]%Q) with
+  | Ok o => map (map Qred) (o_cps o) = [[0; 0]; [3#2; 4]; [9#2; -8]; [6; -8]]%Q
+  | Err _ => False end.
+Proof. vm_compute. reflexivity. Qed.
+
